@@ -27,6 +27,11 @@ def omp_task_deps(st, task, cmap):
             # the first byte of the buffer, reached as ptr[0] or through a byte pointer to &ptr[0]
             m = re.match(r"^&?(.*)\.(get\w+Ptr)\(\)(?:\[0\])?\[0\]$", o)
             if not m:
+                # the address of ONE element of a group's block (a cell's local / multipole, a leaf's rows): not the handle the other tasks name
+                m2 = re.match(r"^&*(.*?)\.(getCell\w+|getParticle\w+|getLeaf\w+)\(", o)
+                if m2:
+                    deps.append({"group": m2.group(1), "field": None, "kind": kind, "node": e, "element": m2.group(2)})
+                    continue
                 raise AnalysisBroken("%s: depend expression '%s' does not resolve to <group>.get<Buffer>Ptr()[0] (resolved: %s)" % (st.ex.facts.loc(e), st.ex.facts.ntext(e), o))
             deps.append({"group": m.group(1), "field": effects.ptr_accessor_field(cmap, m.group(2)), "kind": kind, "node": e})
     return deps
@@ -83,6 +88,10 @@ def check_stage(st, weff, cmap, res, rule="C03.b"):
                     if mode == "W" or need.get(key) != "W":
                         need[key] = mode if need.get(key) != "W" else "W"
         declared = {}
+        for d in [d_ for d_ in deps if d_.get("element")]:
+            res.violation(rule + ".deps-cover-effects", tbf.rel(facts.path_of(d["node"])), st.fn["qname"], "element-key:%s:%s" % (short(canon_group(d["group"])), d["element"]), d["node"]["l"][1],
+                          "the dependency names the address of one element of the group (`%s` -> %s(...)), not the first byte of the block the other tasks of the graph name: OpenMP orders tasks whose list items are the SAME storage location, so this task is neither ordered with the tasks that write the block under its handle nor with those that read it - a reader can run before this task's update" % (facts.ntext(d["node"])[:50], d["element"]))
+        deps = [d_ for d_ in deps if not d_.get("element")]
         for d in deps:
             key = (canon_group(d["group"]), d["field"])
             w = d["kind"] in WRITE_KINDS
